@@ -147,6 +147,9 @@ class FrozenDict(collections.abc.Mapping):
     def __repr__(self):
         return repr(self._d)
 
+    def __sizeof__(self):
+        return object.__sizeof__(self) + sys.getsizeof(self._d)
+
 
 def memorize(collection, engine):
     if not is_iterator(collection):
